@@ -227,8 +227,12 @@ structure Loader (σ : Type) where
 /-- `Cloader.__init__` -/
 def Loader.new : Loader σ := { link := none, targets := [], protocolVersion := 0xFF }
 
-/-- `open_bootloader_uri`: the old link (if any) is closed, `self.link` is a new driver; nothing else changes -/
-def Loader.openLink (ld : Loader σ) (L : Link σ) : Loader σ := { ld with link := some L }
+/-- `open_bootloader_uri`: the old link (if any) is closed, the geometry cache is forgotten (`self.targets = {}`,
+`self.mapping = None`; the mapping is not part of this model's state), `self.link` is a new driver -/
+def Loader.openLink (ld : Loader σ) (L : Link σ) : Loader σ := { ld with link := some L, targets := [] }
+
+/-- the code before the repair D26 (commit c1a3150): the cache survived a reconnect.  Kept for the counterexample. -/
+def Loader.openLinkKeep (ld : Loader σ) (L : Link σ) : Loader σ := { ld with link := some L }
 
 def lookupT (ts : List (Nat × Geom)) (tid : Nat) : Option Geom :=
   match ts with
